@@ -71,6 +71,8 @@ enum J {
     CloseInvoked(u8, String, bool),
     /// the future returned by the close callback ran
     CloseRan(u8, String),
+    /// status found 3 ms (virtual) into the close callback's future
+    CloseLate(u8, String),
     OnErr(u8),
     SendDone(u32),
     SpawnCalled,
@@ -150,6 +152,9 @@ fn oldies_run<const I: usize>(p: &OldiesParams, log_name: &str) -> Vec<J> {
                 async move {
                     let status = format!("{:?}", stats.executor_status().load(Relaxed));
                     j.lock().unwrap().push(J::CloseRan(pipe, status));
+                    // a close callback may await: the executor must still be found ended afterwards
+                    tokio::time::sleep(Duration::from_millis(3)).await;
+                    j.lock().unwrap().push(J::CloseLate(pipe, format!("{:?}", stats.executor_status().load(Relaxed))));
                 }
             }
         };
@@ -328,6 +333,13 @@ fn judge(p: &OldiesParams, journal: &[J]) {
         if let J::CloseInvoked(_, status, finish_ok) = &journal[invoked[0]] {
             if status != "StreamEnded" || !finish_ok {
                 ctx::report("C12", "status_in_close_callback", key(&format!("{}/status_in_close_callback", name)), format!("the {} executor's close callback found state {} (nobody scheduled it to finish), finish time not before start time: {}", name, status, finish_ok));
+            }
+        }
+        for e in journal.iter() {
+            if let J::CloseLate(q, status) = e {
+                if *q == pipe && status != "StreamEnded" {
+                    ctx::report("C12", "status_left_the_ended_state", key(&format!("{}/status_left_the_ended_state", name)), format!("3 ms (virtual) into its close callback the {} executor is in state {}", name, status));
+                }
             }
         }
         if let J::CloseRan(_, status) = &journal[ran[0]] {
